@@ -17,7 +17,7 @@ constructor signatures of the attribute classes - NOT from converter.py:
 * OBSERVERS: attrs_tree(MessageAttributes) and proto_tree(Message) read real
   objects back into the same nested-dict form; tree_missing / proto_diff compare.
 
-Public helpers for other checks: KINDS, gen_specs(kind, level), gen_message_attributes(kind, level),
+Public helpers for other checks: KINDS, gen_specs(kind, level), gen_message_attributes(kind, level), input_raises,
 build_attrs, expected_tree, attrs_tree, tree_missing.
 """
 import itertools
@@ -720,19 +720,43 @@ def spec_depth(spec):
     return 1 + spec_depth(c["quoted"])
 
 
-def gen_specs(kind, level="basic"):
+_PROBES = {}
+
+
+def input_raises(which):
+    """True when the tree under test still has the C10 defect that makes this valid input raise in
+    message_to_protobytes: 'location-skdm' (LocationAttributes with axolotl_sender_key_distribution_message set,
+    C10:location:axolotl_sender_key_distribution_message:raises-when-set) or 'revoke-no-participant' (message key
+    of a 1:1 revoke, C10:protocol:key.participant:raises-when-unset).  Probed once per process on the real
+    converter; used ONLY to gate the generators below, never by an oracle."""
+    if which not in _PROBES:
+        from yowsup.layers.protocol_messages.protocolentities.attributes.converter import AttributesConverter
+        spec = {"location-skdm": make_spec("location", ["axolotl_sender_key_distribution_message"]),
+                "revoke-no-participant": make_spec("protocol", [])}[which]
+        try:
+            AttributesConverter.get().message_to_protobytes(build_attrs(spec))
+            _PROBES[which] = False
+        except Exception:
+            _PROBES[which] = True
+    return _PROBES[which]
+
+
+def gen_specs(kind, level="basic", include_raising=False):
     """Representative specs of one kind for OTHER checks (the C10 module enumerates exhaustively itself).
     level 'basic': minimal + everything-set per alphabet value; 'full': every subset of optional fields x ('r',0).
-    Known-raising inputs of the pinned tree are excluded (location with the sender-key field; revoke without
-    participant) so that users of this generator are not tripped by C10's findings."""
+    The two inputs that raise on the pinned tree (location with the sender-key field; revoke key without
+    participant) are left out only while the defect is present in the tree under test (input_raises), so users
+    of this generator are not tripped by C10's findings; on a repaired tree - or with include_raising=True -
+    the full space is generated."""
     if kind == TEXT:
         for i in (0, 2):
             yield "text/%d" % i, text_spec(i)
         return
     c = CLASSES[kind]
-    opt = [n for n in c.optional_names()
-           if not (kind == "location" and n == "axolotl_sender_key_distribution_message")]
-    must = ["key.participant"] if kind == "protocol" else []
+    skip_skdm = kind == "location" and not include_raising and input_raises("location-skdm")
+    need_participant = kind == "protocol" and not include_raising and input_raises("revoke-no-participant")
+    opt = [n for n in c.optional_names() if not (skip_skdm and n == "axolotl_sender_key_distribution_message")]
+    must = ["key.participant"] if need_participant else []
     if level == "basic":
         yield "%s/minimal" % kind, make_spec(kind, must, ("u", 0))
         for k in range(3):
@@ -747,8 +771,9 @@ def gen_specs(kind, level="basic"):
             yield "%s/all+quote" % kind, make_spec(kind, opt, ("r", 0), ctx=full_ctx(("r", 1), quoted=text_spec(2)))
 
 
-def gen_message_attributes(kind, level="basic"):
+def gen_message_attributes(kind, level="basic", include_raising=False):
     """Yield (label, MessageAttributes, expected_tree) for kind in KINDS (text / extended_text / image / location /
-    contact / ...).  Compare what arrives with  tree_missing(expected_tree, attrs_tree(received)) == []."""
-    for label, spec in gen_specs(kind, level):
+    contact / ...).  Compare what arrives with  tree_missing(expected_tree, attrs_tree(received)) == [].
+    See gen_specs for include_raising."""
+    for label, spec in gen_specs(kind, level, include_raising):
         yield label, build_attrs(spec), expected_tree(spec)
